@@ -382,13 +382,27 @@ def prop_C04(tier):
     return twins(tier) + shorten(tier) + agg + [x for x in twinsteps(tier) if tier != Q and x.name in ("twinstep_nop_n6_m0", "twinstep_set_port_n6_m2")]
 
 
+INS_SORT = "_ZSt16__insertion_sortIN9__gnu_cxx17__normal_iteratorIPSt4pairINSt7__cxx1112basic_stringIcSt11char_traitsIcESaIcEEES8_ESt6vectorIS9_SaIS9_EEEENS0_5__ops15_Iter_comp_iterIZNSt6ranges8__detail16__make_comp_projIZN3ada17url_search_params4sortEvEUlRKS9_SN_E_St8identityEEDaRT_RT0_EUlOSQ_OSS_E_EEEvSQ_SQ_SS_"
+
+
+def sortcmp(tier):
+    o = []
+    names = {0: "utf16", 1: "asym", 2: "trans", 3: "incomp"}
+    for mode, kls in ((0, lens(tier, (1, 2), (1, 2, 3, 4))), (1, lens(tier, (), (1, 2))), (2, lens(tier, (), (1, 2))), (3, lens(tier, (), (1,)))):
+        for kl in kls:
+            o.append(Obl(f"sortcmp_{names[mode]}_k{kl}", "sortcmp.c", [U([INS_SORT], stubs=STR_STUBS)],
+                         defs={"MODE": mode, "KL": kl, "N": 1, "INSERTION_SORT": "F_" + INS_SORT.replace("$", "_")}, unwind=kl + 4, harness_unwind=20,
+                         maxcpy=16, mem_gb=(14 if mode == 0 else 24), timeout=(400 if tier == Q else 2400), weight=6 + kl, replay=False))
+    return o
+
+
 def prop_C12(tier):
     o = [x for x in pct_decode(tier) if "form" in x.name]
     for n in lens(tier, (1, 2, 3), range(0, 5)):
         o.append(Obl(f"form_roundtrip_plus_n{n}", "pct_roundtrip.c", [U(["vk_percent_encode", "vk_percent_decode", "vk_form_decode"])],
                      defs={"N": n, "FORM": 1, "PLUS": 1}, unwind=3 * n + 4, witness=(n >= 1), mem_gb=10,
                      timeout=(200 if tier == Q else 1200), weight=4))
-    return o
+    return o + sortcmp(tier)
 
 
 def capi(tier):
